@@ -116,7 +116,7 @@ def run_ops(op, ops):
             rows = [{n: val_py(v) for n, v in r.items()} for r in o["rows"]]
             op.bulk_insert(t, rows, multiinsert=bool(o.get("multiinsert", True)))
         elif k == "execute":
-            op.execute(o["text"])
+            op.execute(sa.text(o["text"]) if o.get("as_text") else o["text"])
         else:
             raise ValueError(k)
 
@@ -143,7 +143,7 @@ def render_py(ops):
             rows = "[%s]" % ", ".join("{%s}" % ", ".join("%r: %r" % (n, val_py(v)) for n, v in r.items()) for r in o["rows"])
             out.append("op.bulk_insert(%s, %s, multiinsert=%r)" % (t, rows, bool(o.get("multiinsert", True))))
         elif k == "execute":
-            out.append("op.execute(%r)" % o["text"])
+            out.append(("op.execute(sa.text(%r))" if o.get("as_text") else "op.execute(%r)") % o["text"])
         else:
             raise ValueError(k)
     return out or ["pass"]
